@@ -286,7 +286,7 @@ func NewFeatureSourceFromPBF(pbf OSMSource, o *BuildOptions, ctx context.Context
 	return s, nil
 }
 
-func reassembleMultiPolygon(relation *osm.Relation, areaWays *IDSet, ways map[osm.WayID]osm.Way, goroutine int, emit Emit) {
+func reassembleMultiPolygon(relation *osm.Relation, areaWays *IDSet, ways map[osm.WayID]osm.Way, goroutine int, emit Emit) error {
 	polygons := make([][]osm.WayID, 0)
 	loops := make([]osm.WayID, 0)
 	for _, m := range relation.Members {
@@ -305,7 +305,7 @@ func reassembleMultiPolygon(relation *osm.Relation, areaWays *IDSet, ways map[os
 				// This could be because the way isn't closed, or because the way doesn't
 				// fall within the area we're looking at
 				// TODO: Reassemble polygons from unclosed ways
-				return
+				return nil
 			}
 		}
 	}
@@ -322,7 +322,7 @@ func reassembleMultiPolygon(relation *osm.Relation, areaWays *IDSet, ways map[os
 		}
 		area.SetPathIDs(i, ids)
 	}
-	emit(area, goroutine)
+	return emit(area, goroutine)
 }
 
 func (s *pbfSource) Read(options ReadOptions, emit Emit, ctx context.Context) error {
@@ -361,7 +361,7 @@ func (s *pbfSource) Read(options ReadOptions, emit Emit, ctx context.Context) er
 		case *osm.Relation:
 			if isRelationArea(e) {
 				if !options.SkipAreas {
-					reassembleMultiPolygon(e, s.areaWays, s.multipolygonWays, g, emit)
+					return reassembleMultiPolygon(e, s.areaWays, s.multipolygonWays, g, emit)
 				}
 			} else if !options.SkipRelations {
 				relations[g].RelationID = FromOSMRelationID(e.ID)
